@@ -152,10 +152,19 @@ seed("c06-size-ge", "C06", "R-size-param", "conn.go",
 """			if c.server.MaxMessageBytes > 0 && int64(size) >= c.server.MaxMessageBytes {""", "SIZE equal to the limit refused")
 seed("c06-bdat-ge", "C06", "R-bdat-limit", "conn.go",
 "c.bytesReceived+int64(size) > c.server.MaxMessageBytes {", "c.bytesReceived+int64(size) >= c.server.MaxMessageBytes {", "chunk reaching exactly the limit refused")
+seed("c06-exact-n-refused", "C06", "R-limit-budget", "data.go",
+"""		if r.n < 0 {
+			return 0, ErrDataTooLarge
+		}
+		// Ask""", """		if r.n <= 0 {
+			return 0, ErrDataTooLarge
+		}
+		// Ask""", "message of exactly N octets refused")
+seed("c06-overflow-octet-delivered", "C06", "R-limit-budget", "data.go",
+"""			return n - 1, ErrDataTooLarge""", """			return n, ErrDataTooLarge""", "the octet beyond the limit is handed out")
 seed("c06-no-decrement", "C06", "R-limit-budget", "data.go",
-"""	if r.limited {
-		r.n -= int64(n)
-	}""", "", "budget never reduced")
+"""		r.n -= int64(n)
+		if r.n < 0 {""", """		if r.n < 0 {""", "budget never reduced")
 seed("c06-limit-lifted-early", "C06", "R-limit-armed", "conn.go",
 """	code, enhancedCode, msg := dataErrorToStatus(c.Session().Data(r))
 	r.limited = false""", """	r.limited = false
